@@ -180,6 +180,9 @@ func Harness_C06(n int) {
 	withStats := symBool("stats")
 	a := runA(in, "")
 	var st pb.Stats
+	// the collector may have been used before: its counter does not have to start at zero
+	pre := uint64(symChoose("stats_used_before", 2)) * 5
+	st.ExprCnt = pre
 	opts := []pb.Option{pb.Memoize(memo), pb.Debug(dbg)}
 	if withStats {
 		opts = append(opts, pb.Statistics(&st, "no match"))
@@ -202,7 +205,7 @@ func Harness_C06(n int) {
 	symAssert(symEqual(a.v, b.v), "C06: value differs under Memoize/Debug/Statistics")
 	symAssert(a.hasErr == b.hasErr, "C06: error presence differs")
 	if memo && withStats && !symLeftRec {
-		symAssert(st.ExprCnt <= uint64(symExprs*(n+1)), "C06: more expressions evaluated than |exprs|*(n+1) under Memoize")
+		symAssert(st.ExprCnt-pre <= uint64(symExprs*(n+1)), "C06: more expressions evaluated than |exprs|*(n+1) under Memoize")
 	}
 	symReach("end")
 }
